@@ -318,6 +318,7 @@ def main(argv):
     res = Result(prop)
     spec = PROPS[prop]
     key = '?'
+    facts = None
     try:
         facts, key, secs, cached = extract('dev', use_cache=(tier == 'quick'), repo=REPO)
         res.extra['extraction_s'] = round(secs, 2)
@@ -332,6 +333,8 @@ def main(argv):
     except Exception as e:
         traceback.print_exc()
         res.ob('ANALYSIS', 'internal', False, 'internal error: %r' % (e,), key='ANALYSIS-INTERNAL')
+    if facts is not None and getattr(facts, 'fallback_consts', None):
+        res.extra['constants_not_found_spec_value_used'] = sorted(facts.fallback_consts)
     if not res.violations():
         run_control(res, prop, spec, tier)
     assumptions = list(ASSUMPTIONS['common'])
